@@ -212,6 +212,10 @@ def _ops(text):
     return operands_closure(diff.parse_c(text), diff.bundled_subs())
 
 
+FINDING_SHAPES = {"sizeof-evaluates-operand": ["{ int32_t i = RsV; int32_t x = sizeof(i++); RdV = x + i; }",
+                                               "{ int32_t i = RsV; RdV = sizeof(clz32(i++)) + i; }"]}
+
+
 def run_check(ctx):
     import random
     ctx.rule = ("every literal spelling (19 values x dec/hex x 7 suffixes, C-valid ones) x 9 observers; literal pairs x (+ - *) and six "
@@ -224,6 +228,7 @@ def run_check(ctx):
             ctx.evaluations += 1
             if not ok:
                 ctx.known_hit[f["id"]] = f
+    progcheck.judge_shapes(ctx, "C09", FINDING_SHAPES)
     lits = literals()
     rng = random.Random(ctx.seed)
     npairs = 1500 if ctx.tier == "thorough" else 150
